@@ -366,3 +366,54 @@ def _entry_or_insert(eng, st, args, dty, callee, m):
     cnt = simp(mp.count + z3.If(pres, bv(0, 64), bv(1, 64)))
     eng.store(st, ref, VMap(mp.ksort, simp(z3.Store(mp.present, k, z3.BoolVal(True))), newval, cnt, mp.cap, mp.enum))
     return VRef(ref.root, ref.path + (("k", k),), True)
+
+
+# ------------------------------------------------------------------------------------- hash sets (a map without values)
+
+SET_RX = r"(HashSet|std::collections::HashSet|BTreeSet|std::collections::BTreeSet)::<.*>::"
+
+
+@summary(r"^" + SET_RX + r"(new|with_capacity)$|^<(HashSet|std::collections::HashSet)<.*> as Default>::default$", "set constructor: empty set")
+def _set_new(eng, st, args, dty, callee, m):
+    return VMap(None, None, None, bv(0, 64), None)
+
+
+@summary(r"^" + SET_RX + r"insert$", "HashSet::insert -> true iff the value was not yet present")
+def _set_insert(eng, st, args, dty, callee, m):
+    ref, mp = _load_map(eng, st, args[0])
+    kv = args[1]
+    k = _norm_key(key_bv(deref(eng, st, kv) if isinstance(kv, VRef) else kv))
+    mp = _map_prepare(eng, mp, k)
+    pres = simp(z3.Select(mp.present, k))
+    cnt = simp(mp.count + z3.If(pres, bv(0, 64), bv(1, 64)))
+    eng.store(st, ref, VMap(mp.ksort, simp(z3.Store(mp.present, k, z3.BoolVal(True))), None, cnt, mp.cap, mp.enum))
+    return simp(z3.Not(pres))
+
+
+@summary(r"^" + SET_RX + r"contains(::<.*>)?$", "HashSet::contains")
+def _set_contains(eng, st, args, dty, callee, m):
+    ref, mp = _load_map(eng, st, args[0])
+    k = _key_of(eng, st, args[1])
+    mp2 = _map_prepare(eng, mp, k)
+    return simp(z3.Select(mp2.present, k))
+
+
+@summary(r"^" + SET_RX + r"remove(::<.*>)?$", "HashSet::remove -> true iff the value was present")
+def _set_remove(eng, st, args, dty, callee, m):
+    ref, mp = _load_map(eng, st, args[0])
+    k = _key_of(eng, st, args[1])
+    mp = _map_prepare(eng, mp, k)
+    pres = simp(z3.Select(mp.present, k))
+    cnt = simp(mp.count - z3.If(pres, bv(1, 64), bv(0, 64)))
+    eng.store(st, ref, VMap(mp.ksort, simp(z3.Store(mp.present, k, z3.BoolVal(False))), None, cnt, mp.cap, mp.enum))
+    return pres
+
+
+@summary(r"^(std|core|alloc)::slice::<impl \[.*\]>::to_vec$", "slice::to_vec: a Vec with the same elements")
+def _to_vec(eng, st, args, dty, callee, m):
+    v = deref(eng, st, args[0])
+    if isinstance(v, VSeq):
+        return VSeq(list(v.elems), v.len)
+    if isinstance(v, VArr):
+        return VSeq(list(v.elems), bv(len(v.elems), 64))
+    raise SymError("to_vec of " + repr(v))
